@@ -33,7 +33,7 @@ class Contract:
     def __init__(self, target, params, requires=(), ensures=(), raises=None, loops=None, overrides=None,
                  setup=None, props=(), name=None, raises_only_if=False, notes="", assumes=(), result_kind=None,
                  frame=None, extra_names=None, timeout=10000, path_ensures=None, stubs=None, tier="quick",
-                 case=None, native_seams=None):
+                 case=None, native_seams=None, ghost_frame=None):
         self.target = target
         self.params = params
         self.requires = list(requires)
@@ -53,6 +53,7 @@ class Contract:
         self.timeout = timeout
         self.path_ensures = path_ensures
         self.tier = tier                 # "quick": every run; "thorough": only in the thorough tier
+        self.ghost_frame = list(ghost_frame or [])     # ghost variables a call may change (havoced at call sites)
         self.native_seams = list(native_seams or [])   # seams scripted by the native replay / search harness
         self.case = case                 # label of the precondition case this contract instance covers
         self.stubs = dict(stubs or {})   # "Class.attr" -> (z3 function, owner class, result kind, 'property'|'method')
@@ -584,7 +585,7 @@ def contract_handler(c):
                     frame[n] = k
                 else:
                     raise Untranslatable(f"call of {c.name} by contract: missing argument {n}", node)
-        pure = (c.frame == []) and isinstance(c.result_kind, Kind)
+        pure = (c.frame == []) and not c.ghost_frame and isinstance(c.result_kind, Kind)
         memo_key, result, bvs = None, None, []
         if pure:
             smt_args = [v for v in frame.values() if isinstance(v, V)]
@@ -647,6 +648,14 @@ def contract_handler(c):
                 if kind is not None and kind.smt:
                     stx.heap[f] = z3.Const(fresh_name("H_" + f), z3.ArraySort(RefSort, kind.sort()))
                     stx.writes.add(f)
+            for g in c.ghost_frame:
+                cur = stx.ghost.get(g)
+                if isinstance(cur, V):
+                    stx.ghost[g] = fresh(cur.kind, g)
+                elif g.endswith(".calls"):
+                    stx.ghost[g] = fresh(INT, g)
+                elif g.endswith(".result"):
+                    stx.ghost[g] = fresh(BOOL, g)
             if result is not None:
                 res = result
             elif c.result_kind is None:
